@@ -1,8 +1,12 @@
 import json, os, subprocess, sys
 props = {json.loads(l)['id']: json.loads(l) for l in open('/verif/properties.jsonl')}
 tag = sys.argv[1]
+FOCUS = {}
+if os.path.exists("/verif/vc/seedfocus_%s.json" % tag):
+    FOCUS = json.load(open("/verif/vc/seedfocus_%s.json" % tag))
 for arg in sys.argv[2:]:
-    pid, cu = arg.split(":")
+    pid, cu = arg.split(":")[:2]
+    focus = FOCUS.get(pid, "")
     p = props[pid]
     wt = "/tmp/%s_%s" % (tag, pid)
     out = "/tmp/%s_%s_out" % (tag, pid)
@@ -27,6 +31,8 @@ The property under test (this text is all you get about it):
 YOUR TASK: produce ONE small source change (a realistic bug a developer could introduce: an off-by-one, a comparison turned round, a check on the wrong variable, a forgotten update, a wrong order of two writes, a condition dropped in one branch only, a value taken from the wrong place, two cooperating edits that each look fine alone ...) to the NON-TEST code of the repository that BREAKS this property, while the crate still compiles and the EXISTING tests still pass. Prefer a change in a LESS obvious place than the most central function of the property - a helper, a secondary code path, a rarely taken branch, one table or one field among many - and one that needs something specific to manifest (a particular distance, count, ordering, boundary value, or sequence of calls), NOT one that ordinary use would expose at once, and not a change to test code, comments or error messages.
 
 Many people have been given this same task before you and most of them picked the same few lines. So before you choose, write down (in notes.md, under `Candidates`) at least SIX candidate changes in at least FOUR different functions spread over at least THREE files, and then pick the one that you think is LEAST likely to have occurred to anybody else - a function far from the centre of the property that the property nevertheless depends on.
+
+{("To spread the changes over the code base, place yours in this area if at all possible (fall back to your own choice only if nothing there can break the property): " + focus) if focus else ""}
 
 Then write a demonstration: a new Rust test (in the style of the tests/ directory, or in the tests module of the most relevant source file) that FAILS with your change and PASSES without it.
 
